@@ -37,17 +37,24 @@ Qed.
 Definition withheld (l : link_res) : bool :=
   match l with LENOENT | LESRCH => true | _ => false end.
 
-Lemma link_withheld : forall v l,
-  withheld l = true -> v_pdir v = true ->
-  pl_readlink v l = if is_zombie v then Exc ZombieProcess else Val [].
-Proof. intros v l Hl Hp. destruct l; try discriminate; cbn [pl_readlink]; now rewrite Hp. Qed.
+Lemma link_withheld : forall v l z,
+  withheld l = true -> v_stat v = Some z ->
+  pl_readlink v l = if z then Exc ZombieProcess else Val [].
+Proof. intros v l z Hl Hs. destruct l; try discriminate; cbn [pl_readlink]; unfold probe_stat; now rewrite Hs. Qed.
 
 Lemma link_gone : forall v l,
-  withheld l = true -> v_pdir v = false -> v_stat v = None ->
+  withheld l = true -> v_stat v = None -> v_stat_denied v = false ->
   pl_readlink v l = Exc NoSuchProcess.
 Proof.
-  intros v l Hl Hp Hs. destruct l; try discriminate; cbn [pl_readlink]; rewrite Hp;
-    unfold wrap, is_zombie; now rewrite Hs.
+  intros v l Hl Hs Hd. destruct l; try discriminate; cbn [pl_readlink]; unfold probe_stat, wrap, is_zombie;
+    now rewrite Hs, Hd.
+Qed.
+
+Lemma link_probe_denied : forall v l,
+  withheld l = true -> v_stat v = None -> v_stat_denied v = true ->
+  pl_readlink v l = Exc AccessDenied.
+Proof.
+  intros v l Hl Hs Hd. destruct l; try discriminate; cbn [pl_readlink]; unfold probe_stat; now rewrite Hs, Hd.
 Qed.
 
 (* ---------------------------------------------------------------- exe(): fallback and cache *)
@@ -94,12 +101,12 @@ Proof.
     destruct (l_path l); [discriminate|reflexivity].
   - destruct (p_how r) eqn:Eh.
     + assert (Hw : pl_readlink (view_proc r) (v_exe (view_proc r)) = Val []).
-      { rewrite link_withheld; [reflexivity| |reflexivity]. cbn [view_proc v_exe]. now rewrite El, Eh. }
+      { rewrite (link_withheld _ _ false); [reflexivity| |reflexivity]. cbn [view_proc v_exe]. now rewrite El, Eh. }
       rewrite Hw, guess_it_proc by assumption.
       destruct (spec_cmdline (p_cmd r)) as [|a0 rest]; [reflexivity|].
       destruct (exec_file (p_paths r) a0); reflexivity.
     + assert (Hw : pl_readlink (view_proc r) (v_exe (view_proc r)) = Val []).
-      { rewrite link_withheld; [reflexivity| |reflexivity]. cbn [view_proc v_exe]. now rewrite El, Eh. }
+      { rewrite (link_withheld _ _ false); [reflexivity| |reflexivity]. cbn [view_proc v_exe]. now rewrite El, Eh. }
       rewrite Hw, guess_it_proc by assumption.
       destruct (spec_cmdline (p_cmd r)) as [|a0 rest]; [reflexivity|].
       destruct (exec_file (p_paths r) a0); reflexivity.
@@ -244,6 +251,38 @@ Proof.
   cbn [obind read_text]. destruct (name_long c (v_comm v)); [|reflexivity].
   destruct (nl_translate c); reflexivity.
 Qed.
+
+(* a zombie: name() is the kernel name (also at 15 bytes, where cmdline() is consulted and
+   raises ZombieProcess), cmdline()/exe()/cwd() raise ZombieProcess *)
+Lemma zombie_block : forall c comm esrch,
+  run_ops c None (zombie_ops (view_zombie comm esrch)) = spec_zombie comm.
+Proof.
+  intros c comm esrch. unfold zombie_ops, spec_zombie. cbn [run_ops do_op].
+  rewrite name_zombie by reflexivity.
+  assert (Hc : pl_cmdline c (view_zombie comm esrch) = Exc ZombieProcess).
+  { unfold pl_cmdline. cbn. destruct (nl_translate c); reflexivity. }
+  rewrite Hc.
+  assert (He : pl_exe (view_zombie comm esrch) = Exc ZombieProcess) by (unfold pl_exe; destruct esrch; reflexivity).
+  assert (Hw : pl_cwd (view_zombie comm esrch) = Exc ZombieProcess) by (unfold pl_cwd; destruct esrch; reflexivity).
+  unfold fe_exe. rewrite He, Hw. reflexivity.
+Qed.
+
+(* one block of calls over an unchanged kernel state *)
+Lemma history : forall c r,
+  wf_proc r = true -> (nl_translate c = true -> cmd_no_cr (p_cmd r) = true) ->
+  (name_chars c = true -> is_ascii (p_comm r) = true) ->
+  run_ops c None (hist_ops (view_proc r)) = spec_hist r.
+Proof.
+  intros c r Hwf Hcr Hasc. unfold hist_ops, spec_hist. cbn [run_ops do_op].
+  rewrite name_spec by assumption. rewrite exe_spec by assumption.
+  pose proof Hwf as Hwf'. unfold wf_proc in Hwf'.
+  apply andb_true_iff in Hwf' as [Hwf' _]. apply andb_true_iff in Hwf' as [Hcmd _].
+  rewrite pl_cmdline_proc, cmdline_live_spec by assumption. reflexivity.
+Qed.
+
+Lemma history_now : forall r,
+  wf_proc r = true -> run_ops now None (hist_ops (view_proc r)) = spec_hist r.
+Proof. intros r H. apply history; auto; intros H0; discriminate H0. Qed.
 
 Lemma name_multibyte_refuted :
   exists r, wf_proc r = true /\ cmd_no_cr (p_cmd r) = true /\ length (p_comm r) = 15%nat /\
